@@ -121,8 +121,14 @@ class Agg:
                 # the process running the code under test did not reach the end of its workload
                 ctx = (crash_ctx or {}).get("ctx", "")
                 what = (crash_ctx or {}).get("what", "rc=%s" % sh.rc)
-                san = _sanitizer_summary(sh.stderr)
-                if crash_is_violation:
+                san = _sanitizer_summary(sh.stderr) or _memcheck_summary(sh.stderr)
+                leaks = _leak_functions(sh.stderr) if ended else []
+                if leaks or (ended and ("LeakSanitizer" in sh.stderr or "definitely lost" in sh.stderr)):
+                    # the workload completed; the tool found unreachable memory at exit
+                    for fn in (leaks or ["(unattributed)"]):
+                        self.viols.append({"key": "leak:" + fn, "msg": "memory allocated under %s is unreachable at process exit" % fn,
+                                           "detail": {"stderr_tail": sh.stderr[-3000:], "rc": sh.rc}, "shard": sh.label})
+                elif crash_is_violation:
                     key = "crash:%s:%s" % (san or what, (crash_ctx or {}).get("ctxkey", ctx)[:120])
                     self.viols.append({"key": key, "msg": "code under test terminated abnormally (%s) at: %s" % (san or what, ctx),
                                        "detail": {"stderr_tail": sh.stderr[-3000:], "rc": sh.rc, "ctx": ctx}, "shard": sh.label})
@@ -134,6 +140,43 @@ class Agg:
 
     def ndistinct(self, name):
         return len(self.distinct.get(name, ()))
+
+
+def _leak_functions(err):
+    """library functions at the top of LeakSanitizer / memcheck leak stacks (stable key material)"""
+    import re
+    fns = []
+    blocks = re.split(r"\n(?=(?:Direct|Indirect) leak of |==\d+== [\d,]+ (?:\([\d, a-z]+\) )?bytes in )", err)
+    for b in blocks:
+        if "leak of" not in b and "definitely lost" not in b and "indirectly lost" not in b:
+            continue
+        for line in b.splitlines():
+            m = re.search(r"(?:in|by 0x[0-9A-Fa-f]+:|at 0x[0-9A-Fa-f]+:) ((?:MASA|nsctpl)::[\w:<>~ ,*&]+?)(?:\(| \(|$)", line)
+            if m and "/repo/src" in line or (m and "masa_" in line):
+                fn = re.sub(r"<[^<>]*>", "", m.group(1))
+                fn = re.sub(r"<[^<>]*>", "", fn).strip()
+                if fn not in fns:
+                    fns.append(fn)
+                break
+    return fns
+
+
+def _memcheck_summary(err):
+    import re
+    kinds = ["Conditional jump or move depends on uninitialised value", "Use of uninitialised value", "Invalid read", "Invalid write", "Invalid free",
+             "Mismatched free", "Source and destination overlap", "Syscall param", "Argument .* of function .* has a fishy"]
+    lines = err.splitlines()
+    for i, line in enumerate(lines):
+        for k in kinds:
+            if re.search(k, line):
+                fn = ""
+                for l2 in lines[i + 1:i + 12]:
+                    m = re.search(r"(?:at|by) 0x[0-9A-Fa-f]+: ([^(]+)", l2)
+                    if m and ("MASA::" in l2 or "masa_" in l2 or "nsctpl" in l2):
+                        fn = re.sub(r"<[^<>]*>", "", re.sub(r"<[^<>]*>", "", m.group(1))).strip()
+                        break
+                return "memcheck: %s in %s" % (re.sub(r" of size \d+", "", k), fn)
+    return ""
 
 
 def _sanitizer_summary(err):
